@@ -47,6 +47,9 @@ def generate(tier, rng):
             ops = [dict(op="new", dims=[[l, False] for l in x]), dict(op="new", dims=[[l, l in "ab"] for l in y])]
             ops += [dict(op=o, i=0, j=1) for o in ("union", "inter", "diff", "xor", "add")]
             ops += [dict(op=o, i=1, j=0) for o in ("union", "diff")]
+            # expanding by a dimension whose letter is taken, but whose name and items differ from the holder's
+            ops += [dict(op="expand", i=0, ds=[[l, True] for l in y if l in "ab"], inplace=ip) for ip in (False, True)]
+            ops += [dict(op="expand", i=0, ds=[["e", False]] + [[l, True] for l in y if l in "ab"][:1], inplace=True)]
             cases.append(dict(stream="clash", ops=ops))
     n, maxlen = (400, 8) if tier == "quick" else (4000, 12)
     letters = list("abcdef")
@@ -80,7 +83,8 @@ def generate(tier, rng):
             elif r < 0.94:
                 ops.append(dict(op="replace", i=i, key=[rng.choice("LN"), rng.choice(letters)], d=[l, cl], inplace=ip))
             else:
-                ops.append(dict(op="expand", i=i, ds=[[m, False] for m in rng.sample(letters, rng.randint(0, 2))], inplace=ip))
+                # (a clashing dimension has the letter of one in the set but another name and other items)
+                ops.append(dict(op="expand", i=i, ds=[[m, m in "ab" and rng.random() < 0.25] for m in rng.sample(letters, rng.randint(0, 2))], inplace=ip))
         cases.append(dict(stream="history", ops=ops))
     return cases
 
